@@ -44,7 +44,9 @@ theorem code_dq_inverse (t : DQ ℝ) (ht : t.rot.magnitude2 = 1) (hz : ulpsEqD t
   rw [hi] at hk
   exact ⟨i, hk, h1, h2, by rw [hij]; exact hm⟩
 
-/-- ... and on the other path it returns `None` -/
+/-- ... and the kernel of the other path returns `None` with the recorded guard `ulps_eq(scale, 0) = true` (holds for every
+`t`: the kernel is a closed term; that this path is the consistent one exactly when the scale test succeeds is
+`dq_inverse_none_consistent`, `E2E/C08g.lean`) -/
 theorem code_dq_inverse_none (t : DQ ℝ) :
     t_dq_inverse_transform_none (envL (flq t)) = .noneG [.ulps t.scale 0 eps52 4 true] := Trace.C08.t_dq_inverse_transform_none t
 end Cg.E2E.C08
